@@ -10,7 +10,7 @@ import (
 	"hzcheck/esp"
 )
 
-func init() { register("C07", c07Writers, c07Order, c07FS, c07Clean, c07Root) }
+func init() { register("C07", c07Writers, c07Order, c07FS, c07Clean, c07Root, c07Own) }
 
 // C07.writers — URI.path only ever holds normaliser output.
 func c07Writers(e *Env) {
